@@ -1,19 +1,49 @@
-"""C19 — iv_popen: child wired to the descriptor, always terminated and reaped."""
-from ..core import (names_of, same_value, AnalysisBroken, Inliner, canon, strip, last_member, must_pass, relpath, norm_cond, walk, forward)
-from ..analyses import (is_call, holding, path_to, describe, exits_of, callback_kind, must_pass_from_block)
-from .. import interp
-from . import c13
+"""C19 — iv_popen: child wired to the descriptor, always terminated and reaped.
+
+All rules of this module are *behavioural*: the public entry points
+(iv_popen_request_submit / iv_popen_request_close) and whatever functions they
+install as spawn function, exit notification and kill timer (found through the
+values that reach iv_wait_interest_register_spawn / iv_timer_register, never by
+name) are evaluated by the symbolic machine of h19.py on every life cycle of a
+request (type r / w / invalid; malloc, pipe, spawn, open fail or succeed; close
+before or after the child ended; the kill helper reports delivered or gone at
+every step of the escalation; terminating and non-terminating wait statuses).
+The obligations are statements about what happened in those runs (descriptor
+table at exec, what is registered with the loop, what was freed, which signals
+were sent), so they do not depend on statement order, helper functions, names of
+locals, fields or static functions, branch shapes or index arithmetic.
+"""
+from ..core import AnalysisBroken
+from . import h19
+from .h19 import I, is_i, show, show_loc
+
+SIGTERM, SIGKILL = 15, 9
+TERMINATING = [('exited(0)', 0x0000), ('exited(3)', 0x0300), ('killed(SIGTERM)', 15), ('killed(SIGKILL)+core', 9 | 0x80)]
+NON_TERMINATING = [('stopped(SIGSTOP)', (19 << 8) | 0x7f), ('continued', 0xffff)]
+ALL_OK = {'malloc': 'ok', 'pipe': 'ok', 'spawn': 'ok', 'open': 'ok'}
+MAX_FIRINGS = 48
+
+REQ_OBJ = (('X', 'request'),)          # the caller's request object
+REQUEST = ('addr', REQ_OBJ)
+FILE_V, ARGV_V = ('sym', 'request-file'), ('sym', 'request-argv')
 
 
 def run(ctx):
-    ctx.rule('R-C19a', 'wiring table: for type r the child gets the data pipe\'s write end on stdout and the null device on the other two '
-                       'streams (type w: read end on stdin), each standard descriptor dup2\'ed once, inherited ends closed; the parent '
-                       'returns the opposite end and closes the child\'s', floor=6)
-    ctx.rule('R-C19b', 'signalling stops when the kill helper says the child is gone: that edge unregisters, frees and re-arms nothing; '
-                       'otherwise the timer is re-registered; TERM first then KILL', floor=4)
-    ctx.rule('R-C19c', 'CONTAINER-FREE for the running-child record and release of everything on submit failure paths', floor=4)
-    ctx.rule('R-C19d', 'close detaches the request before arming the kill timer, only while the child is still running; the exit '
-                       'notification clears the request\'s child pointer when still attached, else cancels the timer', floor=4)
+    ctx.rule('R-C19a', 'wiring table, evaluated: for type r the spawned child execs the request\'s program with the data pipe\'s write end on '
+                       'stdout and the null device (read-write) on the other two streams (type w: read end on stdin), every inherited '
+                       'descriptor closed; the parent returns the opposite end, closes the child\'s end, and the child\'s behaviour is '
+                       'decided by what the parent stored', floor=12)
+    ctx.rule('R-C19b', 'escalation, evaluated firing by firing from the state close leaves: exactly one signal per firing, through the kill '
+                       'helper on the record\'s own interest; SIGTERM first, SIGKILL eventually and from then on; helper says delivered: '
+                       'timer re-armed, nothing released; helper says gone: interest unregistered, record freed, nothing re-armed, no '
+                       'further signal; the sequence does not depend on uninitialised memory', floor=5)
+    ctx.rule('R-C19c', 'CONTAINER-FREE for the running-child record (never freed while a loop object inside it is registered, freed exactly '
+                       'once in every life cycle) and release of everything (record, both pipe ends, registration) on every submit '
+                       'failure outcome', floor=11)
+    ctx.rule('R-C19d', 'close with a running child leaves the record detached from the request and the kill timer armed on it; close after '
+                       'the child ended does nothing; the exit notification acts only on terminating statuses, clears the request\'s '
+                       'child pointer while attached, cancels the timer when detached and never touches a closed request; every life '
+                       'cycle ends with nothing registered', floor=25)
     ctx.rule('R-C19e', 'no signal after the child ended: the wait module recognises exited and signalled children as terminated (shared with C11)', floor=6)
     ctx.section(lambda c: __import__('ivy.rules.c11', fromlist=['x']).status_table(c, 'R-C19e'))
     ctx.section(wiring)
@@ -22,208 +52,598 @@ def run(ctx):
     ctx.section(detach)
 
 
-def _run_mode(f, mode_atoms):
-    pairs, bools = interp.atoms_of(f)
-    b = {x: False for x in bools}
-    b.update(mode_atoms)
-    trace = []
-    res = interp.run(f, interp.Assignment(orders={}, bools=b))
+# ----------------------------------------------------------------------------
+# life-cycle runs
+# ----------------------------------------------------------------------------
+
+class Path:
+    def __init__(self):
+        self.trail = []
+        self.m = None
+        self.steps = []       # per script step: dict(step, fired, ret, reg, heap, log0, log1, viol0, viol1)
+        self.end = 'done'
+
+    def step(self, name, k=0):
+        c = [s for s in self.steps if s['step'] == name]
+        return c[k] if len(c) > k else None
+
+    def log(self, s):
+        return self.m.log[s['log0']:s['log1']]
+
+    def viol(self, s=None):
+        if s is None:
+            return self.m.viol
+        return self.m.viol[s['viol0']:s['viol1']]
+
+    def text(self):
+        return h19.trail_text(self.trail)
+
+
+def roots(ctx):
+    prog = ctx.prog
+    st = getattr(ctx, '_c19', None)
+    if st is None:
+        sub = prog.fn('iv_popen_request_submit')
+        clo = prog.fn('iv_popen_request_close')
+        if sub.static or clo.static or not sub.blocks or not clo.blocks:
+            raise AnalysisBroken('iv_popen_request_submit / iv_popen_request_close are not the exported entry points any more')
+        st = ctx._c19 = {'submit': sub, 'close': clo, 'home': (sub.file, clo.file), 'cache': {}}
+    return st
+
+
+def lifecycle(ctx, typ, script, fixed=None):
+    """All paths of: submit a request of type `typ`, then the script steps
+    'close' | ('exit', status) | ('timers', n)."""
+    st = roots(ctx)
+    key = (typ, tuple(script), tuple(sorted((fixed or {}).items())))
+    if key in st['cache']:
+        return st['cache'][key]
+    prog = ctx.prog
+
+    def scenario(orc):
+        p = Path()
+        m = p.m = h19.Machine(prog, orc, st['home'])
+        m.mem[REQ_OBJ + (('f', 'type'),)] = ('str', typ)
+        m.mem[REQ_OBJ + (('f', 'file'),)] = FILE_V
+        m.mem[REQ_OBJ + (('f', 'argv'),)] = ARGV_V
+
+        def do(name, fn):
+            s = {'step': name, 'log0': len(m.log), 'viol0': len(m.viol), 'fired': None, 'ret': None}
+            m.phase = name
+            try:
+                s['ret'] = fn()
+            finally:
+                s.update(log1=len(m.log), viol1=len(m.viol), reg=dict(m.reg), heap=dict(m.heap), fds=dict(m.fds), mem=dict(m.mem))
+                p.steps.append(s)
+            return s
+        try:
+            do('submit', lambda: m.call(st['submit'], [REQUEST]))
+            for sp in script:
+                if sp == 'close':
+                    do('close', lambda: m.call(st['close'], [REQUEST]))
+                    m.released.append((REQ_OBJ[0], 'after iv_popen_request_close returned (the caller may have released the request)'))
+                elif sp[0] == 'exit':
+                    s = do('exit', lambda: h19.fire_wait(m, sp[1]))
+                    s['fired'] = s['ret']
+                elif sp[0] == 'timers':
+                    for _ in range(sp[1]):
+                        s = do('timer', lambda: h19.fire_timer(m))
+                        s['fired'] = s['ret']
+                        if s['ret'] is None:
+                            break
+                        # the escalation is over once the helper said gone; what is still armed then is judged by
+                        # the rules, not fired (bounds the enumeration: at most one `gone` per path)
+                        if any(e['kind'] == 'signal' and e['outcome'] == 'gone' for e in p.log(s)) or len(m.undecided) > 5:
+                            break
+        except h19.PathEnd as pe:
+            p.end = pe.why
+        return p
+
+    res = []
+    for trail, p in h19.explore(scenario, fixed):
+        p.trail = trail
+        res.append(p)
+    st['cache'][key] = res
     return res
 
 
+def records_of(p):
+    """heap objects allocated on this path (the running-child record)"""
+    return sorted(p.m.heap)
+
+
+def points_into(v, base):
+    return h19.mentions(v, lambda x: x[0] == 'addr' and x[1][:1] == (base,))
+
+
+def request_refs_freed(p, mem=None):
+    """locations of the request that hold a pointer into a freed object"""
+    m = p.m
+    mem = m.mem if mem is None else mem
+    out = []
+    for loc, v in mem.items():
+        if loc[0] == REQ_OBJ[0]:
+            for hid, stt in m.heap.items():
+                if stt == 'freed' and points_into(v, ('H', hid)):
+                    out.append(show_loc(loc))
+    return out
+
+
+def record_refs_request(p, mem=None):
+    m = p.m
+    mem = m.mem if mem is None else mem
+    return [show_loc(loc) for loc, v in mem.items() if loc[0][0] == 'H' and h19.mentions(v, lambda x: x == REQUEST)]
+
+
+def outcome_of(p, what):
+    for (key, c, n, label) in p.trail:
+        if isinstance(key, tuple) and key[0] == what:
+            return label
+    return None
+
+
+def vtext(vs):
+    return '; '.join('%s (%s)' % (v['what'], (v['loc'] or '?').split('/')[-1]) for v in vs[:4])
+
+
+# ----------------------------------------------------------------------------
+# R-C19a
+# ----------------------------------------------------------------------------
+
+def _stream_ok(entry, want):
+    """entry: open file description on a standard stream; want: ('pipe', 'r'|'w') or 'null-in' / 'null-out'"""
+    if entry is None:
+        return False
+    if isinstance(want, tuple):
+        return entry[0] == 'pipe' and entry[1] == want[1] and entry[2] == 0
+    if entry[0] != 'file' or entry[1] != '/dev/null' or entry[2] is None:
+        return False
+    acc = entry[2] & 3
+    return acc in ((0, 2) if want == 'null-in' else (1, 2))
+
+
+def _table_text(t):
+    def d(x):
+        if x[0] == 'pipe':
+            return 'pipe %s end' % ('read' if x[1] == 'r' else 'write')
+        if x[0] == 'file':
+            return '%s (flags %s)' % (x[1], x[2])
+        return 'inherited std %s' % x[1]
+    return '{' + ', '.join('%s: %s' % (show(k), d(v)) for k, v in sorted(t.items(), key=lambda kv: str(kv[0]))) + '}'
+
+
 def wiring(ctx):
-    prog = ctx.prog
-    c = prog.fn('iv_popen_child')
-    s = prog.fn('iv_popen_request_submit')
-    info = c.params[0]['name']
-    pairs, bools = interp.atoms_of(c)
-    fr = [x for x in bools if x.endswith('for_read')]
-    if len(fr) != 1:
-        raise AnalysisBroken('iv_popen_child: direction test not found (%s)' % bools)
-    pairs2, bools2 = interp.atoms_of(s)
-    fr2 = [x for x in bools2 if x.endswith('for_read')]
-    sr = [x for x in bools2 if x.startswith('strcmp(') and '"r"' in x]
-    sw_ = [x for x in bools2 if x.startswith('strcmp(') and '"w"' in x]
-    if len(fr2) != 1 or len(sr) != 1 or len(sw_) != 1:
-        raise AnalysisBroken('iv_popen_request_submit: type/direction tests not found (%s)' % bools2)
+    st = roots(ctx)
+    sub = st['submit']
     for mode in ('r', 'w'):
         rd = (mode == 'r')
-        res = _run_mode(c, {fr[0]: rd, 'devnull': True})
-        dups = [(canon(e['args'][0]), canon(e['args'][1])) for e in res['trace'] if is_call(e, 'dup2')]
-        closes = [canon(e['args'][0]) for e in res['trace'] if is_call(e, 'close')]
-        targets = sorted(t for (_, t) in dups)
-        data = [(src, t) for (src, t) in dups if 'data_pipe' in src]
-        nulls = [(src, t) for (src, t) in dups if src == 'devnull']
-        want = ('data_pipe[1]', '1') if rd else ('data_pipe[0]', '0')
-        ok = targets == ['0', '1', '2'] and len(data) == 1 and data[0][0].endswith(want[0]) and data[0][1] == want[1] and len(nulls) == 2
-        ctx.ob('R-C19a', 'child:type-%s' % mode, ok, loc=c.loc,
-               detail='dup2 calls %s; expected data pipe end %s on descriptor %s and the null device on the other two' % (dups, want[0], want[1]), fn=c.q)
-        okc = sum(1 for x in closes if 'data_pipe[0]' in x) == 1 and sum(1 for x in closes if 'data_pipe[1]' in x) == 1 and closes.count('devnull') == 1
-        ctx.ob('R-C19a', 'child:type-%s:inherited-ends-closed' % mode, okc, loc=c.loc, detail='closes: %s' % closes, fn=c.q)
-        ex = [e for e in res['trace'] if is_call(e, 'execvp')]
-        okx = bool(ex) and all(res['trace'].index(e) > max(res['trace'].index(d) for d in res['trace'] if is_call(d, ('dup2', 'close'))) for e in ex)
-        ctx.ob('R-C19a', 'child:type-%s:exec-after-wiring' % mode, okx, loc=c.loc, detail='execvp runs after all descriptors are wired', fn=c.q)
-        # parent
-        resp = _run_mode(s, {sr[0]: not rd, sw_[0]: rd, fr2[0]: rd, 'ch': True})
-        fds = [canon(e['rhs']) for e in resp['trace'] if e['ev'] == 'store' and canon(e['lhs']) == 'fd']
-        pcl = [canon(e['args'][0]) for e in resp['trace'] if is_call(e, 'close')]
-        wantp = 'info.data_pipe[0]' if rd else 'info.data_pipe[1]'
-        other = 'info.data_pipe[1]' if rd else 'info.data_pipe[0]'
-        okp = fds == [wantp] and pcl == [other] and resp['end'] == 'ret' and resp['ret'] == 'fd'
-        ctx.ob('R-C19a', 'parent:type-%s' % mode, okp, loc=s.loc,
-               detail='returns %s (%s), closes %s; expected to return %s and close %s (the end the child uses)' % (fds, resp['ret'], pcl, wantp, other), fn=s.q)
-        # the direction flag the child sees is what the type string selected
-        fs = [canon(e['rhs']) for e in resp['trace'] if e['ev'] == 'store' and canon(e['lhs']).endswith('for_read')]
-        ctx.ob('R-C19a', 'parent:type-%s:direction-flag' % mode, fs == ['1' if rd else '0'], loc=s.loc,
-               detail='for_read stored %s for type "%s"' % (fs, mode), fn=s.q)
+        paths = lifecycle(ctx, mode, [], dict(ALL_OK, open=None))
+        good = [p for p in paths if outcome_of(p, 'open') != 'fails']
+        nulf = [p for p in paths if outcome_of(p, 'open') == 'fails']
+        want = {0: 'null-in', 1: ('pipe', 'w'), 2: 'null-out'} if rd else {0: ('pipe', 'r'), 1: 'null-out', 2: 'null-out'}
+        wtxt = 'stdin: null device, stdout: pipe write end, stderr: null device' if rd else 'stdin: pipe read end, stdout and stderr: null device'
+        kids = [(p, c) for p in good for c in p.m.children]
+        execs = [(p, c, e) for (p, c) in kids for e in c.log if e['kind'] == 'exec']
+        cloc = sub.loc
+        cfn = sub.q
+        for (p, c) in kids:
+            f = c.spawn_fn
+            if f[0] == 'fn' and ctx.prog.funcs.get(f[1]) is not None:
+                cloc, cfn = ctx.prog.funcs[f[1]].loc, f[1]
+        # -- the child's descriptor table at exec
+        ok = bool(good) and all(p.m.children for p in good) and bool(execs) and all(any(e['kind'] == 'exec' for e in c.log) for (p, c) in kids)
+        det = ''
+        for (p, c, e) in execs:
+            t = e['table']
+            if not all(_stream_ok(t.get(I(n)), want[n]) for n in (0, 1, 2)):
+                ok = False
+                det = 'at %s the table is %s' % (e['name'], _table_text(t))
+        bad_v = [v for (p, c) in kids for v in c.viol]
+        ctx.ob('R-C19a', 'child:type-%s' % mode, ok and not bad_v, loc=(execs[0][2]['loc'] if execs else cloc),
+               detail='a request of type "%s" must exec its program with %s; %s %s' % (mode, wtxt, det or ('no exec reached' if not ok else ''), vtext(bad_v)),
+               fn=cfn, path=(execs[0][0].text() if execs else None))
+        okc = bool(execs) and all(set(e['table']) <= {I(0), I(1), I(2)} for (p, c, e) in execs)
+        extra = [show(k) for (p, c, e) in execs for k in e['table'] if k not in (I(0), I(1), I(2))]
+        ctx.ob('R-C19a', 'child:type-%s:inherited-ends-closed' % mode, okc, loc=(execs[0][2]['loc'] if execs else cloc),
+               detail='descriptors still open at exec besides 0/1/2: %s (both pipe ends and the null device descriptor must be closed)' % (extra or 'none'), fn=cfn)
+        okx = bool(execs) and all(len(e['args']) >= 2 and e['args'][0] == FILE_V and e['args'][1] == ARGV_V for (p, c, e) in execs)
+        ctx.ob('R-C19a', 'child:type-%s:exec-after-wiring' % mode, okx, loc=(execs[0][2]['loc'] if execs else cloc),
+               detail='the child execs the request\'s file with the request\'s argv once the descriptors are wired (got %s)'
+                      % [[show(a) for a in e['args']] for (p, c, e) in execs][:2], fn=cfn)
+        nk = [(p, c) for p in nulf for c in p.m.children]
+        okn = bool(nk) and not any(e['kind'] == 'exec' for (p, c) in nk for e in c.log)
+        ctx.ob('R-C19a', 'child:type-%s:no-exec-without-null-device' % mode, okn, loc=cloc,
+               detail='when the null device cannot be opened the child does not exec the program with unwired standard streams', fn=cfn)
+        # -- the parent
+        okp = bool(good)
+        dets = []
+        for p in good:
+            s = p.step('submit')
+            m = p.m
+            r = s['ret']
+            mine = ('fd', 'pipe-read-end') if rd else ('fd', 'pipe-write-end')
+            other = ('fd', 'pipe-write-end') if rd else ('fd', 'pipe-read-end')
+            if p.end != 'done' or r != mine:
+                okp = False
+                dets.append('returns %s instead of the pipe\'s %s end' % (show(r) if r is not None else p.end, 'read' if rd else 'write'))
+            if mine not in s['fds']:
+                okp = False
+                dets.append('closes the descriptor it returns')
+            if other in s['fds']:
+                okp = False
+                dets.append('keeps the child\'s end %s open (the reader never sees end-of-file / the child never sees the writer go away)' % show(other))
+            left = [k for k in s['fds'] if k not in (I(0), I(1), I(2), mine, other)]
+            if left:
+                okp = False
+                dets.append('leaks %s' % [show(k) for k in left])
+            if p.viol(s):
+                okp = False
+                dets.append(vtext(p.viol(s)))
+        ctx.ob('R-C19a', 'parent:type-%s' % mode, okp, loc=sub.loc,
+               detail='submit of type "%s" returns the %s end of the data pipe and closes the other one; %s' % (mode, 'read' if rd else 'write', '; '.join(dets[:3])),
+               fn=sub.q, path=(good[0].text() if good else None))
+        und = [u for p in paths for u in p.m.undecided] + [u for p in paths for c in p.m.children for u in c.undecided]
+        ctx.ob('R-C19a', 'parent:type-%s:direction-flag' % mode, bool(kids) and not und, loc=(und[0]['loc'] if und else sub.loc),
+               detail='with the type string and the outcomes of malloc/pipe/spawn/open fixed, nothing in submit or in the child may depend on '
+                      'anything else; undecided: %s' % [show(u['term']) for u in und[:3]], fn=sub.q)
+
+
+# ----------------------------------------------------------------------------
+# R-C19b
+# ----------------------------------------------------------------------------
+
+def _expiry_refreshed(ev, reg):
+    """before this registration, the same firing wrote the timer's expiry (a store into it, or a call that is handed its address)"""
+    exp = reg['obj'] + (('f', 'expires'),)
+    n = len(exp)
+    for e in ev[:ev.index(reg)]:
+        if e['kind'] == 'store' and (e['target'][:n] == exp or exp[:len(e['target'])] == e['target']):
+            return True
+        if e['kind'] == 'call' and any(isinstance(a, tuple) and a[0] == 'addr' and a[1][:n] == exp for a in e['args']):
+            return True
+    return False
 
 
 def escalation(ctx):
-    prog = ctx.prog
-    f = prog.fn('iv_popen_running_child_timer')
-    hd = holding(f)
-    kills = [e for e in f.events() if is_call(e, 'iv_wait_interest_kill')]
-    if not kills:
-        raise AnalysisBroken('kill timer: kill helper call not found')
-    rv = None
-    for s in f.events():
-        if s['ev'] == 'store' and strip(s.get('rhs', {})).get('k') == 'call' and strip(s['rhs']).get('callee') == 'iv_wait_interest_kill':
-            rv = canon(s['lhs'])
-    regs = [e for e in f.events() if is_call(e, 'iv_timer_register')]
-    gone_ok, alive_ok = False, False
-    for b, blk in f.blocks.items():
-        if blk.term and blk.term.get('cond') is not None and len(blk.succ) == 2:
-            for si in (0, 1):
-                for (op, lc, rc, l, r) in norm_cond(blk.term['cond'], si == 0):
-                    if lc == rv and rc == '0' and op == '<':
-                        un = must_pass_from_block(f, blk.succ[si], lambda e: is_call(e, 'iv_wait_interest_unregister'))
-                        fr = must_pass_from_block(f, blk.succ[si], lambda e: is_call(e, 'free'))
-                        reach = set()
-                        st = [blk.succ[si]]
-                        while st:
-                            x = st.pop()
-                            if x in reach or x is None:
-                                continue
-                            reach.add(x)
-                            st.extend(f.blocks[x].succ)
-                        pts = [(pb, pi) for (pb, pi, e) in exits_of(f) if pb in reach]
-                        gone_ok = bool(pts) and all(un.get(p) and fr.get(p) for p in pts) and not any(e['_b'] in reach for e in regs + kills)
-                    if lc == rv and rc == '0' and op == '>=':
-                        rg = must_pass_from_block(f, blk.succ[si], lambda e: e in regs)
-                        reach = set()
-                        st = [blk.succ[si]]
-                        while st:
-                            x = st.pop()
-                            if x in reach or x is None:
-                                continue
-                            reach.add(x)
-                            st.extend(f.blocks[x].succ)
-                        pts = [(pb, pi) for (pb, pi, e) in exits_of(f) if pb in reach] + ([(f.exit, 0)] if f.exit in reach else [])
-                        alive_ok = bool(pts) and all(rg.get(p, True) for p in pts) and bool(regs)
-    ctx.ob('R-C19b', 'timer:gone-stops-signalling', gone_ok, loc=f.loc,
-           detail='on the edge kill-helper < 0 the interest is unregistered, the record freed, and neither kill nor timer registration is reachable', fn=f.q)
-    ctx.ob('R-C19b', 'timer:alive-rearms', alive_ok, loc=f.loc, detail='otherwise the timer is registered again on every path', fn=f.q)
-    # TERM first, then KILL: the signal is a function of num_kills vs a constant, incremented each time
-    sg = [e for e in f.events() if e['ev'] == 'store' and canon(e['lhs']) == 'signum']
-    oks = False
-    for e in sg:
-        v = strip(e['rhs'])
-        if v.get('k') == 'cond' and 'num_kills' in canon(v['c']) and strip(v['a']).get('v') == 15 and strip(v['b']).get('v') == 9 and '++' in canon(v['c']) and ' < ' in canon(v['c']):
-            oks = True
-    ctx.ob('R-C19b', 'timer:term-then-kill', oks, loc=sg[0]['loc'] if sg else f.loc,
-           detail='SIGTERM while the attempt counter is below the limit, SIGKILL afterwards; the counter advances every time', fn=f.q)
-    ctx.ob('R-C19b', 'timer:signals-through-helper', all(canon(e['args'][1]) == 'signum' and canon(e['args'][0]).endswith('->wait') for e in kills), loc=kills[0]['loc'],
-           detail='the child is signalled only through iv_wait_interest_kill on its own interest (which refuses reaped pids: C11 R-C11c)', fn=f.q)
-    cl = prog.fn('iv_popen_request_close')
-    z = [e for e in cl.events() if e['ev'] == 'store' and last_member(e['lhs']) == ('iv_popen_running_child', 'num_kills') and canon(e.get('rhs')) == '0']
-    ctx.ob('R-C19b', 'close:attempt-counter-reset', bool(z), loc=z[0]['loc'] if z else cl.loc, detail='num_kills = 0 when the escalation is armed', fn=cl.q)
+    st = roots(ctx)
+    clo = st['close']
+    paths = lifecycle(ctx, 'r', ['close', ('timers', MAX_FIRINGS)], dict(ALL_OK))
+    armed = [p for p in paths if p.step('close') and any(r['kind'] == 'timer' for r in p.step('close')['reg'].values())]
+    if not armed:
+        raise AnalysisBroken('kill timer: no timer is registered after closing a request with a running child')
+    hq = None
+    for p in armed:
+        for s in p.steps:
+            if s['step'] == 'timer' and s['fired']:
+                hq = s['fired']
+    hf = ctx.prog.funcs.get(hq) if hq else None
+    hloc = hf.loc if hf is not None else clo.loc
+    hname = hq or clo.q
+    # the path on which the helper always says "delivered": the signal sequence
+    seq_ok, through_ok, alive_ok, gone_ok = True, True, True, True
+    seq_det, thr_det, alive_det, gone_det = '', '', '', ''
+    sloc = None
+    n_gone = 0
+    n_alive = 0
+    und = []
+    for p in armed:
+        m = p.m
+        rec = records_of(p)
+        und += [u for u in m.undecided if u['phase'] == 'timer' and h19.garbage(u['term'], m)]
+        sigs = []
+        for k, s in enumerate([s for s in p.steps if s['step'] == 'timer' and s['fired']]):
+            ev = p.log(s)
+            sg = [e for e in ev if e['kind'] == 'signal']
+            raw = [e for e in ev if e['kind'] == 'rawsignal']
+            if sg and sloc is None:
+                sloc = sg[0]['loc']
+            if raw:
+                through_ok = False
+                thr_det = 'direct %s() at %s' % (raw[0]['name'], (raw[0]['loc'] or '').split('/')[-1])
+            if len(sg) != 1:
+                through_ok = False
+                thr_det = thr_det or 'firing %d sends %d signals' % (k + 1, len(sg))
+            for e in sg:
+                w = e['obj']
+                if not (w[0][0] == 'H'):
+                    through_ok = False
+                    thr_det = thr_det or 'signal through %s, which is not the record\'s interest' % show_loc(w)
+                sigs.append(e['sig'])
+            vs = p.viol(s)
+            last = sg[-1]['outcome'] if sg else None
+            if last == 'gone':
+                n_gone += 1
+                after = ev[ev.index(sg[-1]) + 1:]
+                if s['reg'] or any(x == 'live' for x in s['heap'].values()) or vs or any(e['kind'] in ('signal', 'rawsignal', 'timer-register') for e in after):
+                    gone_ok = False
+                    gone_det = gone_det or ('firing %d: still registered: %s; record %s; %s' % (
+                        k + 1, [r['kind'] for r in s['reg'].values()], 'not freed' if any(x == 'live' for x in s['heap'].values()) else 'freed', vtext(vs)))
+            elif last == 'delivered':
+                n_alive += 1
+                tm = [(loc, r) for loc, r in s['reg'].items() if r['kind'] == 'timer']
+                wi = [(loc, r) for loc, r in s['reg'].items() if r['kind'] == 'wait interest']
+                good = (len(tm) == 1 and len(wi) == 1 and tm[0][1]['handler'] == ('fn', s['fired']) and rec and tm[0][1]['cookie'] == ('addr', (('H', rec[0]),))
+                        and tm[0][0][0] == ('H', rec[0]) and all(x == 'live' for x in s['heap'].values()) and not vs
+                        and all(e['expires_set'] and _expiry_refreshed(ev, e) for e in ev if e['kind'] == 'timer-register'))
+                if not good:
+                    alive_ok = False
+                    alive_det = alive_det or ('firing %d: registered afterwards: %s; expiry rewritten before re-arming: %s; %s' % (
+                        k + 1, [(r['kind'], show(r['handler'])) for r in s['reg'].values()],
+                        [_expiry_refreshed(ev, e) for e in ev if e['kind'] == 'timer-register'], vtext(vs)))
+        if all((outcome == 'delivered') for outcome in [t[3] for t in p.trail if isinstance(t[0], tuple) and t[0][0] == 'kill']):
+            # all-delivered path: TERM ... TERM KILL KILL ...
+            vals = [x[1] if is_i(x) else None for x in sigs]
+            if len(vals) < 3 or vals[0] != SIGTERM or any(v not in (SIGTERM, SIGKILL) for v in vals):
+                seq_ok = False
+            elif SIGKILL not in vals:
+                seq_ok = False
+            else:
+                i = vals.index(SIGKILL)
+                if any(v != SIGKILL for v in vals[i:]) or len(vals) - i < 2:
+                    seq_ok = False
+            seq_det = 'signals sent while the child keeps running: %s' % [show(x) for x in sigs][:MAX_FIRINGS]
+    ctx.ob('R-C19b', 'timer:gone-stops-signalling', gone_ok and n_gone > 0, loc=hloc,
+           detail='whenever the kill helper reports the child gone, the interest is unregistered, the record freed, and neither a signal nor a '
+                  'timer registration follows; %s' % (gone_det or ('evaluated at %d firings' % n_gone)), fn=hname)
+    ctx.ob('R-C19b', 'timer:alive-rearms', alive_ok and n_alive > 0, loc=hloc,
+           detail='while the helper delivers the signal the record\'s timer is registered again (same handler, record as cookie, expiry written anew) and nothing is released; %s'
+                  % (alive_det or ('evaluated at %d firings' % n_alive)), fn=hname)
+    ctx.ob('R-C19b', 'timer:term-then-kill', seq_ok and bool(seq_det), loc=sloc or hloc,
+           detail='SIGTERM first, SIGKILL eventually and from then on; %s' % seq_det, fn=hname)
+    ctx.ob('R-C19b', 'timer:signals-through-helper', through_ok and sloc is not None, loc=sloc or hloc,
+           detail='exactly one signal per firing, only through iv_wait_interest_kill on the record\'s own interest (which refuses reaped pids: C11 R-C11c); %s' % thr_det, fn=hname)
+    ctx.ob('R-C19b', 'close:attempt-counter-reset', not und, loc=(und[0]['loc'] if und else clo.loc),
+           detail='the escalation state is initialised when the timer is armed: no decision of the kill timer depends on never-written memory; %s'
+                  % [show(u['term']) for u in und[:2]], fn=clo.q)
+
+
+# ----------------------------------------------------------------------------
+# R-C19c
+# ----------------------------------------------------------------------------
+
+def _all_lifecycles(ctx):
+    """(name, paths) of the life cycles used for the release obligations"""
+    out = []
+    for mode in ('r', 'w'):
+        out.append(('submit(%s)' % mode, lifecycle(ctx, mode, [], None)))
+    out.append(('exit-then-close', lifecycle(ctx, 'r', [('exit', 0), 'close'], dict(ALL_OK))))
+    for name, stt in TERMINATING:
+        out.append(('close-then-%s' % name, lifecycle(ctx, 'r', ['close', ('exit', stt)], dict(ALL_OK))))
+        out.append(('%s-while-attached' % name, lifecycle(ctx, 'w', [('exit', stt)], dict(ALL_OK))))
+    out.append(('close-escalate', lifecycle(ctx, 'r', ['close', ('timers', MAX_FIRINGS)], dict(ALL_OK))))
+    for k in (1, 3, 7):
+        out.append(('close-%d-signals-then-exit' % k, lifecycle(ctx, 'r', ['close', ('timers', k), ('exit', 15)], dict(ALL_OK, kill='delivered'))))
+    return out
 
 
 def container(ctx):
-    prog = ctx.prog
-    # the running-child record: wait interest must be unregistered at every free; the timer is state-discriminated
-    c13.EMBEDDED_BACKUP = dict(c13.EMBEDDED)
-    n = 0
-    for fn in ('iv_popen_running_child_wait', 'iv_popen_running_child_timer', 'iv_popen_request_submit'):
-        f = prog.fn(fn)
-        hd = holding(f)
-        for fr in [e for e in f.events() if is_call(e, 'free') and strip(e['args'][0]).get('record') == 'iv_popen_running_child']:
+    st = roots(ctx)
+    sub = st['submit']
+    # -- failure outcomes of submit
+    for what in ('malloc', 'pipe', 'spawn'):
+        ok, dets, n = True, [], 0
+        ploc = sub.loc
+        for mode in ('r', 'w'):
+            for p in lifecycle(ctx, mode, [], None):
+                firsts = [t for t in p.trail if isinstance(t[0], tuple) and t[0][0] in ('malloc', 'pipe', 'spawn') and t[3] == 'fails']
+                if not firsts or firsts[0][0][0] != what:
+                    continue
+                n += 1
+                ploc = firsts[0][0][1] or ploc
+                s = p.step('submit')
+                r = s['ret']
+                if not (p.end == 'done' and r is not None and ((is_i(r) and r[1] < 0) or r[0] == 'neg')):
+                    ok = False
+                    dets.append('returns %s' % (show(r) if r is not None else p.end))
+                leak = [show(k) for k in s['fds'] if k not in (I(0), I(1), I(2))]
+                if leak:
+                    ok = False
+                    dets.append('descriptors left open: %s' % leak)
+                if any(x == 'live' for x in s['heap'].values()):
+                    ok = False
+                    dets.append('the record is not freed')
+                if s['reg']:
+                    ok = False
+                    dets.append('still registered: %s' % [r_['kind'] for r_ in s['reg'].values()])
+                if request_refs_freed(p, s['mem']):
+                    ok = False
+                    dets.append('the request still points to the freed record (%s)' % request_refs_freed(p, s['mem']))
+                if p.viol(s):
+                    ok = False
+                    dets.append(vtext(p.viol(s)))
+                if any(c.log for c in p.m.children) and what != 'spawn':
+                    ok = False
+        ctx.ob('R-C19c', 'submit:%s-fails:releases-everything' % what, ok and n > 0, loc=ploc,
+               detail='when %s fails submit returns a negative value with the record freed, both pipe ends closed, nothing registered and no '
+                      'pointer to the record left in the request; %s' % (what, '; '.join(dets[:3]) or ('%d paths' % n)), fn=sub.q)
+    ok, dets, n = True, [], 0
+    for typ in ('x', '', 'rw', 'wr'):
+        for p in lifecycle(ctx, typ, [], None):
             n += 1
-            obj = canon(fr['args'][0])
-            if fn == 'iv_popen_request_submit':
-                # before / after failed registration: nothing registered
-                spawn = [e for e in f.events() if is_call(e, 'iv_wait_interest_register_spawn')]
-                A = hd.get((fr['_b'], fr['_i']), frozenset())
-                before = not must_pass(f, lambda e: e in spawn).get((fr['_b'], fr['_i']))
-                failed = any(a[0] == '<' and a[2] == '0' and all(k[0] == 'var' for k in a[3]) for a in A)
-                ctx.ob('R-C19c', '%s:free:not-registered' % fn, before or failed, loc=fr['loc'],
-                       detail='the record is freed only before the spawn-registration or on its failure edge (which undoes it: C07 wait kind)', fn=f.q)
-                if failed:
-                    cl = must_pass(f, lambda e: is_call(e, 'close') and 'data_pipe[0]' in canon(e['args'][0]))
-                    cl2 = must_pass(f, lambda e: is_call(e, 'close') and 'data_pipe[1]' in canon(e['args'][0]))
-                    ctx.ob('R-C19c', '%s:spawn-failure-closes-pipe' % fn, bool(cl.get((fr['_b'], fr['_i']))) and bool(cl2.get((fr['_b'], fr['_i']))), loc=fr['loc'],
-                           detail='both pipe ends are closed when the spawn failed', fn=f.q)
-                continue
-            mp = must_pass(f, lambda e, obj=obj: is_call(e, 'iv_wait_interest_unregister') and canon(e['args'][0]) == '&%s->wait' % obj)
-            ctx.ob('R-C19c', '%s:free:wait-unregistered' % fn, bool(mp.get((fr['_b'], fr['_i']))), loc=fr['loc'],
-                   detail='iv_wait_interest_unregister(&%s->wait) on every path to free(%s)' % (obj, obj), fn=f.q)
-            if fn == 'iv_popen_running_child_wait':
-                # timer registered iff parent == NULL: on that edge it must be unregistered
-                okt = False
-                for b, blk in f.blocks.items():
-                    if blk.term and blk.term.get('cond') is not None and len(blk.succ) == 2:
-                        for si in (0, 1):
-                            for (op, lc, rc, l, r) in norm_cond(blk.term['cond'], si == 0):
-                                if last_member(l) == ('iv_popen_running_child', 'parent') and op == '==' and rc == '0':
-                                    mt = must_pass_from_block(f, blk.succ[si], lambda e: is_call(e, 'iv_timer_unregister') and canon(e['args'][0]).endswith('->signal_timer'))
-                                    okt = bool(mt.get((fr['_b'], fr['_i'])))
-                ctx.ob('R-C19c', '%s:free:timer-cancelled-when-armed' % fn, okt, loc=fr['loc'],
-                       detail='the kill timer is armed iff the request was closed (parent == NULL); on that edge it is unregistered before the free', fn=f.q)
-            else:
-                ctx.exempt('R-C19c', '%s:free:signal_timer' % fn, 'freed from inside the one-shot timer\'s own handler: the timer is already unregistered (C01 R-C01b)')
-                regs_after = [e for e in f.events() if is_call(e, 'iv_timer_register')]
-                mpf = must_pass(f, lambda e: e is fr)
-                ok = not any(mpf.get((e['_b'], e['_i'])) for e in regs_after)
-                ctx.ob('R-C19c', '%s:free:no-rearm-after-free' % fn, ok, loc=fr['loc'], detail='no timer registration follows the free', fn=f.q)
-    if n < 4:
-        raise AnalysisBroken('free sites of the running-child record: %d found' % n)
+            s = p.step('submit')
+            r = s['ret']
+            if not (p.end == 'done' and r is not None and ((is_i(r) and r[1] < 0) or r[0] == 'neg')):
+                ok = False
+                dets.append('type "%s": returns %s' % (typ, show(r) if r is not None else p.end))
+            if [k for k in s['fds'] if k not in (I(0), I(1), I(2))] or any(x == 'live' for x in s['heap'].values()) or s['reg'] or p.m.children or p.viol(s):
+                ok = False
+                dets.append('type "%s": something is left behind (descriptors %s, record %s, registered %s, child spawned: %s) %s' % (
+                    typ, [show(k) for k in s['fds'] if k not in (I(0), I(1), I(2))], list(s['heap'].values()), len(s['reg']), bool(p.m.children), vtext(p.viol(s))))
+    ctx.ob('R-C19c', 'submit:invalid-type:rejected-and-released', ok and n > 0, loc=sub.loc,
+           detail='a type other than "r"/"w" is refused with a negative value, nothing spawned, nothing left allocated, open or registered; %s' % '; '.join(dets[:2]), fn=sub.q)
+    # -- free sites, grouped by source location and by role (the step of the life cycle that runs them)
+    sites = {}          # (role, loc) -> [violations at this free]
+    frees_by_role = {}
+    uaf = []
+    for name, paths in _all_lifecycles(ctx):
+        for p in paths:
+            for s in p.steps:
+                role = {'submit': 'submit-failure', 'exit': 'exit-notification', 'timer': 'kill-timer', 'close': 'close'}[s['step']]
+                for e in p.log(s):
+                    if e['kind'] == 'call' and e['name'] == 'free' and e.get('obj') is not None:
+                        sites.setdefault((role, e['loc']), [])
+                        frees_by_role.setdefault(role, set()).add(e['loc'])
+                for v in p.viol(s):
+                    if v['kind'] == 'free':
+                        sites.setdefault((role, v['loc']), []).append((name, v, p))
+                    elif v['kind'] == 'use-after-free':
+                        uaf.append((name, v, p))
+    for (role, loc), vs in sorted(sites.items(), key=lambda kv: (kv[0][0], str(kv[0][1]))):
+        ctx.ob('R-C19c', 'free:%s:nothing-registered-inside' % role, not vs, loc=loc,
+               detail='in every life cycle that reaches this free, the record\'s wait interest and kill timer are not (or no longer) registered and the '
+                      'record has not been freed before; %s' % ('; '.join('%s: %s' % (n_, v['what']) for (n_, v, _) in vs[:2])),
+               path=(vs[0][2].text() if vs else None))
+    for role in ('submit-failure', 'exit-notification', 'kill-timer'):
+        ctx.ob('R-C19c', 'record-freed:%s' % role, bool(frees_by_role.get(role)), loc=sub.loc,
+               detail='the running-child record is released by the %s path (free sites: %d)' % (role, len(frees_by_role.get(role, ()))), fn=sub.q)
+    ctx.ob('R-C19c', 'record:not-used-after-free', not uaf, loc=(uaf[0][1]['loc'] if uaf else sub.loc),
+           detail='no life cycle reads or writes the record after it was freed; %s' % '; '.join('%s: %s' % (n_, v['what']) for (n_, v, _) in uaf[:3]),
+           path=(uaf[0][2].text() if uaf else None))
+
+
+# ----------------------------------------------------------------------------
+# R-C19d
+# ----------------------------------------------------------------------------
+
+def _ended(p):
+    """everything released at the end of a life cycle in which the child ended"""
+    m = p.m
+    last = p.steps[-1]
+    probs = []
+    if p.end != 'done':
+        probs.append('path ends in %s' % p.end)
+    if last['reg']:
+        probs.append('still registered with the loop: %s' % ['%s %s' % (r['kind'], show_loc(l)) for l, r in last['reg'].items()])
+    if any(x == 'live' for x in last['heap'].values()):
+        probs.append('the running-child record is never freed')
+    if m.viol:
+        probs.append(vtext(m.viol))
+    return probs
 
 
 def detach(ctx):
-    prog = ctx.prog
-    f = prog.fn('iv_popen_request_close')
-    hd = holding(f)
-    det = [e for e in f.events() if e['ev'] == 'store' and last_member(e['lhs']) == ('iv_popen_running_child', 'parent') and canon(e.get('rhs')) in ('NULL', '0')]
-    arm = [e for e in f.events() if is_call(e, 'iv_timer_register')]
-    if not arm:
-        raise AnalysisBroken('close: arming of the kill timer not found')
-    if not det:
-        ctx.ob('R-C19d', 'close:detach-before-arm', False, loc=arm[0]['loc'],
-               detail='the request is never detached (parent = NULL) although the kill timer is armed: the exit notification '
-                      'would write into a request the caller may already have released', fn=f.q)
-        return
-    for e in det + arm:
-        A = hd.get((e['_b'], e['_i']), frozenset())
-        ok = any(a[0] == '!=' and a[2] == '0' and (all(k[0] == 'var' for k in a[3]) or ('iv_popen_request', 'child') in a[3]) for a in A)
-        ctx.ob('R-C19d', 'close:%s-only-if-child-running' % ('detach' if e in det else 'arm'), ok, loc=e['loc'],
-               detail='%s is on the edge this->child != NULL' % describe(e), fn=f.q)
-    mp = must_pass(f, lambda e: e in det)
-    ctx.ob('R-C19d', 'close:detach-before-arm', all(mp.get((e['_b'], e['_i'])) for e in arm), loc=arm[0]['loc'],
-           detail='parent = NULL precedes the timer registration (the exit notification must not touch a closed request)', fn=f.q)
-    hs = [e for e in f.events() if e['ev'] == 'store' and canon(e['lhs']).endswith('signal_timer.handler')]
-    ctx.ob('R-C19d', 'close:timer-handler', bool(hs) and all(canon(e['rhs']) == 'iv_popen_running_child_timer' for e in hs), loc=f.loc,
-           detail='the armed timer runs the escalation handler with the record as cookie', fn=f.q)
-    w = prog.fn('iv_popen_running_child_wait')
-    hdw = holding(w)
-    cl = [e for e in w.events() if e['ev'] == 'store' and last_member(e['lhs']) == ('iv_popen_request', 'child') and canon(e.get('rhs')) in ('NULL', '0')]
-    ok = bool(cl)
-    for e in cl:
-        A = hdw.get((e['_b'], e['_i']), frozenset())
-        ok = ok and any(a[0] == '!=' and a[2] == '0' and ('iv_popen_running_child', 'parent') in a[3] for a in A)
-    ctx.ob('R-C19d', 'exit:clears-request-when-attached', ok, loc=cl[0]['loc'] if cl else w.loc,
-           detail='parent->child = NULL only on the parent != NULL edge', fn=w.q)
-    un = [e for e in w.events() if is_call(e, 'iv_wait_interest_unregister')]
-    A = hdw.get((un[0]['_b'], un[0]['_i']), frozenset()) if un else frozenset()
-    term = bool(un) and not any(a[0] == '==' and a[2] == '0' and 'status' in a[1] for a in A)
-    ctx.ob('R-C19d', 'exit:only-on-termination', bool(un), loc=un[0]['loc'] if un else w.loc,
-           detail='the interest is released (so the loop can exit) when a terminating status arrives', fn=w.q)
+    st = roots(ctx)
+    clo, sub = st['close'], st['submit']
+    # -- close with a running child
+    for mode in ('r', 'w'):
+        paths = lifecycle(ctx, mode, ['close'], dict(ALL_OK))
+        ok, dets = bool(paths), []
+        aloc = clo.loc
+        for p in paths:
+            s = p.step('close')
+            if s is None:
+                ok = False
+                dets.append('submit did not complete (%s)' % p.end)
+                continue
+            rec = records_of(p)
+            tm = [(loc, r) for loc, r in s['reg'].items() if r['kind'] == 'timer']
+            if tm:
+                aloc = tm[0][1]['loc'] or aloc
+            if len(tm) != 1 or not rec or tm[0][0][0] != ('H', rec[0]):
+                ok = False
+                dets.append('no kill timer inside the record is registered after close (registered: %s)' % [r['kind'] for r in s['reg'].values()])
+            else:
+                r = tm[0][1]
+                if r['handler'][0] != 'fn' or ctx.prog.funcs.get(r['handler'][1]) is None or r['cookie'] != ('addr', (('H', rec[0]),)):
+                    ok = False
+                    dets.append('the armed timer has handler %s and cookie %s (expected a function and the record)' % (show(r['handler']), show(r['cookie'])))
+                if any(e['kind'] == 'timer-register' and not e['expires_set'] for e in p.log(s)):
+                    ok = False
+                    dets.append('the timer is registered with an expiry time that was never written')
+            if not any(r['kind'] == 'wait interest' for r in s['reg'].values()):
+                ok = False
+                dets.append('the wait interest is gone although the child is still running')
+            refs = record_refs_request(p, s['mem'])
+            if refs:
+                ok = False
+                dets.append('the record still refers to the request through %s: the exit notification would write into a request the caller may have released' % refs)
+            if p.viol(s) or any(x != 'live' for x in s['heap'].values()):
+                ok = False
+                dets.append('%s %s' % (vtext(p.viol(s)), 'record freed in close' if any(x != 'live' for x in s['heap'].values()) else ''))
+        ctx.ob('R-C19d', 'close:type-%s:running-child-detached-and-armed' % mode, ok, loc=aloc,
+               detail='after close with the child still running: the record holds no reference to the request, its kill timer is registered with the '
+                      'record as cookie, the wait interest stays; %s' % '; '.join(dets[:3]), fn=clo.q)
+    # -- close after the child ended: nothing happens
+    paths = lifecycle(ctx, 'r', [('exit', 0), 'close'], dict(ALL_OK))
+    ok, dets = bool(paths), []
+    for p in paths:
+        s = p.step('close')
+        if s is None:
+            ok = False
+            continue
+        acts = [e for e in p.log(s) if e['kind'] in ('signal', 'rawsignal', 'timer-register', 'spawn') or (e['kind'] == 'call' and e['name'] in ('free', 'iv_timer_unregister', 'iv_wait_interest_unregister'))]
+        if acts or s['reg'] or p.viol(s):
+            ok = False
+            dets.append('%s %s %s' % ([e['name'] for e in acts], [r['kind'] for r in s['reg'].values()], vtext(p.viol(s))))
+    ctx.ob('R-C19d', 'close:child-already-ended:does-nothing', ok, loc=clo.loc,
+           detail='close of a request whose child has ended registers nothing, signals nobody and touches no released memory; %s' % '; '.join(dets[:2]), fn=clo.q)
+    # -- the exit notification
+    wq = None
+    for name, stt in TERMINATING:
+        pa = lifecycle(ctx, 'w', [('exit', stt)], dict(ALL_OK))
+        ok, dets = bool(pa), []
+        for p in pa:
+            s = p.step('exit')
+            if s is None or not s['fired']:
+                ok = False
+                dets.append('no exit notification handler is installed')
+                continue
+            wq = s['fired']
+            pr = _ended(p)
+            refs = request_refs_freed(p, s['mem'])
+            if pr or refs:
+                ok = False
+                dets += pr + (['the request still points to the freed record through %s: a later close would use it' % refs] if refs else [])
+        wf = ctx.prog.funcs.get(wq) if wq else None
+        ctx.ob('R-C19d', 'exit:%s:attached:clears-request' % name, ok, loc=(wf.loc if wf else sub.loc),
+               detail='child ends while the request is open: interest unregistered, record freed, the request\'s child pointer cleared, no timer touched; %s' % '; '.join(dets[:3]),
+               fn=wq or sub.q, path=(pa[0].text() if pa else None))
+        pb = lifecycle(ctx, 'r', ['close', ('exit', stt)], dict(ALL_OK))
+        ok, dets = bool(pb), []
+        for p in pb:
+            s = p.step('exit')
+            if s is None or not s['fired']:
+                ok = False
+                dets.append('no exit notification can be delivered after close')
+                continue
+            pr = _ended(p)
+            if pr:
+                ok = False
+                dets += pr
+        ctx.ob('R-C19d', 'exit:%s:detached:cancels-timer' % name, ok, loc=(wf.loc if wf else sub.loc),
+               detail='child ends after close: interest unregistered, kill timer cancelled, record freed, closed request not touched; %s' % '; '.join(dets[:3]),
+               fn=wq or sub.q, path=(pb[0].text() if pb else None))
+    wf = ctx.prog.funcs.get(wq) if wq else None
+    for name, stt in NON_TERMINATING:
+        ok, dets = True, []
+        for script in ([('exit', stt)], ['close', ('exit', stt)]):
+            for p in lifecycle(ctx, 'r', script, dict(ALL_OK)):
+                s = p.step('exit')
+                if s is None or not s['fired']:
+                    ok = False
+                    continue
+                if any(x != 'live' for x in s['heap'].values()) or not any(r['kind'] == 'wait interest' for r in s['reg'].values()) or p.viol(s) \
+                        or len(s['reg']) != len(p.steps[-2]['reg']):
+                    ok = False
+                    dets.append('after %s: record %s, registered %s %s' % ('+'.join(str(x if isinstance(x, str) else x[0]) for x in script), list(s['heap'].values()),
+                                                                     [r['kind'] for r in s['reg'].values()], vtext(p.viol(s))))
+        ctx.ob('R-C19d', 'exit:%s:not-a-termination' % name, ok, loc=(wf.loc if wf else sub.loc),
+               detail='a %s child is still there: nothing is released or unregistered (it must still be signalled and reaped); %s' % (name, '; '.join(dets[:2])), fn=wq or sub.q)
+    # -- whole life cycles end with nothing registered
+    for name, paths in _all_lifecycles(ctx):
+        if name.startswith('submit('):
+            continue
+        ok, dets, n = True, [], 0
+        for p in paths:
+            last = p.steps[-1]
+            # the child ended on this path iff an exit notification with a terminating status was delivered or the helper said gone
+            ended = any(s['step'] == 'exit' and s['fired'] for s in p.steps) or any(e['kind'] == 'signal' and e['outcome'] == 'gone' for e in p.m.log)
+            if not ended:
+                continue
+            n += 1
+            pr = _ended(p)
+            if pr:
+                ok = False
+                dets += pr
+        ctx.ob('R-C19d', 'lifecycle:%s:loop-can-exit' % name, ok and n > 0, loc=clo.loc,
+               detail='once the child has ended nothing of the request stays registered with the loop and the record is freed exactly once; %s' % '; '.join(dets[:3]), fn=clo.q)
